@@ -87,14 +87,12 @@ def run(ctx):
     avb = db.body(SP + 'asymmetric_verify_signature')
     if avb is not None:
         Fv = ctx.facts(avb)
-        defs = named_local_defs(avb, Fv, 'result')
-        badd = [d for d in defs if not re.search(r'^Try::branch\(PKey::verify_\w+\(.*\)\)@Continue\.0$', d)]
         oks = result_ctor_sites(avb, 'Ok')
-        true_edge = all(any(l[0] == 'truth' and l[2] is True and l[1][0] == 'place' for l, e in Fv.literals_at(bb, si)) for bb, si, pl in oks) and bool(oks)
-        if defs and not badd and true_edge:
-            r.ok(rule, 'verify:verdict', 'Ok(()) only when `result` is true, and `result` is the verify_* boolean on all %d arms' % len(defs), loc=avb.loc)
+        res = [verdict_guard(avb, Fv, Fv.literals_at(bb, si), r'^Try::branch\(PKey::verify_\w+\(.*\)\)@Continue\.0$') for bb, si, pl in oks]
+        if res and all(x[0] for x in res):
+            r.ok(rule, 'verify:verdict', 'Ok(()) only on the true edge of ' + res[0][1], loc=avb.loc)
         else:
-            r.fail(rule, 'verify:verdict', 'asymmetric_verify_signature can succeed although the primitive reported a mismatch (%s)' % ((badd or ['Ok not on the true edge'])[0][:100]), loc=avb.loc)
+            r.fail(rule, 'verify:verdict', 'asymmetric_verify_signature can succeed although the primitive reported a mismatch (%s)' % ([x[1] for x in res if not x[0]] or ['no Ok result'])[0][:140], loc=avb.loc)
     # policy -> primitive pair
     rule = 'sign-verify-table'
     sb = db.body(SP + 'asymmetric_sign'); vb2 = db.body(SP + 'asymmetric_verify_signature')
